@@ -82,6 +82,21 @@ FormatInfo(name) ==
       [] name = "r1g2b1" -> Fmt(4, "ARGB", 0, 1, 2, 1)
       [] name = "a1r1g1b1" -> Fmt(4, "ARGB", 1, 1, 1, 1)
       [] name = "a1" -> Fmt(1, "A", 1, 0, 0, 0)
+      [] name = "a8r8g8b8_sRGB" -> Fmt(32, "ARGB", 8, 8, 8, 8)       \* same layout; the colour -> pixel rule does not apply
+      [] name = "a1b5g5r5" -> Fmt(16, "ABGR", 1, 5, 5, 5)
+      [] name = "x1b5g5r5" -> Fmt(16, "ABGR", 0, 5, 5, 5)
+      [] name = "x4r4g4b4" -> Fmt(16, "ARGB", 0, 4, 4, 4)
+      [] name = "a4b4g4r4" -> Fmt(16, "ABGR", 4, 4, 4, 4)
+      [] name = "b2g3r3" -> Fmt(8, "ABGR", 0, 3, 3, 2)
+      [] name = "a2b2g2r2" -> Fmt(8, "ABGR", 2, 2, 2, 2)
+      [] name = "b1g2r1" -> Fmt(4, "ABGR", 0, 1, 2, 1)
+      [] name = "a1b1g1r1" -> Fmt(4, "ABGR", 1, 1, 1, 1)
+      \* palette formats: the pixel is an index, every bit of it is significant
+      [] name = "c8" -> Fmt(8, "INDEX", 0, 0, 0, 0)
+      [] name = "g8" -> Fmt(8, "INDEX", 0, 0, 0, 0)
+      [] name = "c4" -> Fmt(4, "INDEX", 0, 0, 0, 0)
+      [] name = "g4" -> Fmt(4, "INDEX", 0, 0, 0, 0)
+      [] name = "g1" -> Fmt(1, "INDEX", 0, 0, 0, 0)
       \* floating point formats: every bit of the pixel is significant
       [] name = "rgba_float" -> Fmt(128, "FLOAT", 32, 32, 32, 32)
       [] name = "rgb_float" -> Fmt(96, "FLOAT", 0, 32, 32, 32)
@@ -103,7 +118,7 @@ Chans(f) == IF f.type = "A" THEN {"a"} ELSE {"a", "r", "g", "b"}
 (* the channel that owns bit k of a pixel, or "" for an unused (x) bit *)
 ChanOfBit(f, k) ==
     LET cs == {c \in Chans(f) : ChanShift(f, c) <= k /\ k < ChanShift(f, c) + ChanWidth(f, c)} IN
-    IF f.type = "FLOAT" THEN "f" ELSE IF cs = {} THEN "" ELSE CHOOSE c \in cs : TRUE
+    IF f.type \in {"FLOAT", "INDEX"} THEN "f" ELSE IF cs = {} THEN "" ELSE CHOOSE c \in cs : TRUE
 
 (* colour -> pixel (color_to_pixel in pixman.c, restated): each channel takes the most     *)
 (* significant bits of the HIGH BYTE of the 16-bit colour component.  col = [r, g, b, a].  *)
